@@ -16,27 +16,48 @@ type Event struct {
 	Proc int    `json:"proc"`
 	Step int    `json:"step"` // index of the scenario step this event belongs to
 	Ev   string `json:"ev"`   // reset | begin | call | end | crash | edit
-	// call fields
-	Kind string `json:"kind,omitempty"` // store | res | wait
-	Verb string `json:"verb,omitempty"`
-	ID   string `json:"id,omitempty"` // resource / hook id, revision, or query kind
-	OK   bool   `json:"ok"`
-	Inj  bool   `json:"inj"` // the failure was injected by the fault plan
-	Code int    `json:"code,omitempty"`
+	// call fields (kind/verb/id also describe edits)
+	Kind  string `json:"kind"` // store | res | wait | edit | oobdel | oobkeep
+	Verb  string `json:"verb"`
+	ID    string `json:"id"` // resource / hook id, revision, or query kind
+	OK    bool   `json:"ok"`
+	Inj   bool   `json:"inj"` // the failure was injected by the fault plan
+	Code  int    `json:"code"`
+	Field string `json:"field"`
+	Value string `json:"value"`
 	// begin fields
-	Op    string          `json:"op,omitempty"`
-	Chart string          `json:"chart,omitempty"`
-	Vals  string          `json:"vals,omitempty"`
-	Flags map[string]any  `json:"flags,omitempty"`
+	Op    string         `json:"op"`
+	Chart string         `json:"chart"`
+	Vals  string         `json:"vals"`
+	Flags map[string]any `json:"flags"`
 	// end fields
-	Err string `json:"err,omitempty"`
-	// response of uninstall
-	Info string `json:"info,omitempty"`
+	Err  string `json:"err"`
+	Info string `json:"info"` // response of uninstall
 	// full abstract state after the event
-	State *State `json:"state,omitempty"`
+	State *State `json:"state"`
 	// scenario id on reset
-	Scenario string `json:"scenario,omitempty"`
-	Driver   string `json:"driver,omitempty"`
+	Scenario string `json:"scenario"`
+	Driver   string `json:"driver"`
+}
+
+// NormFlags gives every flag the trace specification reads a value.
+func NormFlags(f map[string]any) map[string]any {
+	out := map[string]any{
+		"replace": false, "atomic": false, "cleanupOnFail": false, "keepHistory": false, "noHooks": false,
+		"maxHistory": 0, "version": 0, "dryRun": false, "takeOwnership": false, "clientOnly": false,
+	}
+	for k, v := range f {
+		out[k] = v
+	}
+	if o, _ := out["dryRunOption"].(string); o == "client" || o == "server" || o == "true" {
+		out["dryRun"] = true
+	}
+	for _, k := range []string{"maxHistory", "version"} {
+		if fv, ok := out[k].(float64); ok {
+			out[k] = int(fv)
+		}
+	}
+	return out
 }
 
 // procState is the per-operation plan and progress.
@@ -118,6 +139,11 @@ func (r *Recorder) Events() []Event {
 	defer r.mu.Unlock()
 	out := make([]Event, len(r.events))
 	copy(out, r.events)
+	for i := range out {
+		if out[i].Flags == nil {
+			out[i].Flags = map[string]any{} // TLC's JSON reader has no null
+		}
+	}
 	return out
 }
 
